@@ -24,7 +24,10 @@ func verifQuietLog() *logrus.Logger {
 	return l
 }
 
-var verifGroups = []string{"g0", "g1", "g2", "g3"}
+// Group names are chosen so that the must_ shorthand cannot be stripped sloppily without being
+// noticed: us_proxy / proxy differ by a prefix made of the letters of "must_", sm_t consists of
+// such letters only.
+var verifGroups = []string{"g0", "proxy", "us_proxy", "sm_t"}
 
 // verifGroupIDs optionally overrides the outbound ids of verifGroups.
 var verifGroupIDs []uint8
